@@ -34,7 +34,7 @@ GenParseAgree ==
         LET r0 == R
             lay == LayoutGen(Table(m)[name], G)
             z == ZeroFill(lay, r0.bfix, 4)
-        IN (r0.ok /\ SelectDefName(m, r0.cls, r0.id, z) = name) =>
+        IN (r0.ok /\ CountsFit(lay) /\ SelectDefName(m, r0.cls, r0.id, z) = name) =>
             LET r == Parse(m, r0.cls, r0.id, pbf, z) IN
             /\ r.err = ""
             /\ r.off = Len(z)
@@ -51,7 +51,7 @@ BuildParseRoundTrip ==
         LET r0 == R
             lay == LayoutGen(Table(m)[name], G)
             z == ZeroFill(lay, r0.bfix, 4)
-        IN (r0.ok /\ SelectDefName(m, r0.cls, r0.id, z) = name /\ ~HasPopulatedVarGroup(Table(m)[name]) /\ Len(z) > 0) =>
+        IN (r0.ok /\ CountsFit(lay) /\ SelectDefName(m, r0.cls, r0.id, z) = name /\ ~HasPopulatedVarGroup(Table(m)[name]) /\ Len(z) > 0) =>
             LET r == Parse(m, r0.cls, r0.id, pbf, z)
                 kw == KwOfAttrs(r.attrs)
                 b == Build(m, r0.cls, r0.id, pbf, kw)
@@ -69,6 +69,6 @@ DumpLayout ==
             lay == LayoutGen(Table(m)[name], G)
             z == IF GrammarSane(Table(m)[name]) THEN ZeroFill(lay, r0.bfix, 4) ELSE <<>>
         IN PrintT(ToJson([m |-> m, name |-> name, c |-> c, pbf |-> pbf, ttag |-> ttag,
-                          reachable |-> r0.ok /\ GrammarSane(Table(m)[name]) /\ SelectDefName(m, r0.cls, r0.id, z) = name,
+                          reachable |-> r0.ok /\ GrammarSane(Table(m)[name]) /\ CountsFit(lay) /\ SelectDefName(m, r0.cls, r0.id, z) = name,
                           cls |-> r0.cls, id |-> r0.id, bfix |-> r0.bfix, lay |-> lay.lay, fixes |-> lay.fixes, len |-> lay.len]))
 =============================================================================
